@@ -53,6 +53,32 @@ const ITEMS: &[Item] = &[
     Item { name: "forward-ref", src: r##"<rect xy="#z|h 2" wh="4"/><rect id="z" xy="20 -20" wh="6 4"/>"##, bbox: Some((20., -20., 32., -16.)), defs: "" },
     Item { name: "loop", src: r#"<loop count="3" loop-var="i"><rect xy="{{$i * 10}} {{$i * -2.5}}" wh="4"/></loop>"#, bbox: Some((0., -5., 24., 4.)), defs: "" },
     Item { name: "reuse", src: r##"<reuse href="#sq" x="-60" y="12" s="5"/>"##, bbox: Some((-60., 12., -55., 17.)), defs: r#"SPECS<rect id="sq" wh="$s"/>"# },
+    // transforms on <use>, on <a>; transform combined with clip-path (the clip path lives inside the transform)
+    Item { name: "use-translate", src: r##"<use href="#du" transform="translate(100)"/>"##, bbox: Some((100., 0., 104., 3.)), defs: r#"<rect id="du" wh="4 3"/>"# },
+    Item { name: "use-xy-scale", src: r##"<use href="#du" x="10" transform="scale(2)"/>"##, bbox: Some((20., 0., 28., 6.)), defs: r#"<rect id="du" wh="4 3"/>"# },
+    Item { name: "a-translate", src: r##"<a href="x" transform="translate(100 200)"><rect wh="10"/></a>"##, bbox: Some((100., 200., 110., 210.)), defs: "" },
+    Item { name: "g-translate-clipped", src: r##"<g transform="translate(100)" clip-path="url(#dc10)"><rect wh="20"/></g>"##, bbox: Some((100., 0., 110., 10.)), defs: r#"<clipPath id="dc10"><rect wh="10"/></clipPath>"# },
+    Item { name: "shape-translate-clipped", src: r##"<rect wh="20" transform="translate(-100 5)" clip-path="url(#dc10)"/>"##, bbox: Some((-100., 5., -90., 15.)), defs: r#"<clipPath id="dc10"><rect wh="10"/></clipPath>"# },
+    Item { name: "use-of-clipped-group", src: r##"<g id="cg" transform="translate(50)" clip-path="url(#dc100)"><rect wh="10"/></g><use href="#cg" y="30"/>"##, bbox: Some((50., 0., 60., 40.)), defs: r#"<clipPath id="dc100"><rect wh="100"/></clipPath>"# },
+    Item { name: "clip-url-quoted", src: r##"<rect xy="0 0" wh="50 50" clip-path="url('#dcp')"/>"##, bbox: Some((10., 10., 20., 15.)), defs: r#"<clipPath id="dcp"><rect xy="10 10" wh="10 5"/></clipPath>"# },
+    Item { name: "clip-url-spaced", src: r##"<rect xy="0 0" wh="50 50" clip-path="url( #dcp )"/>"##, bbox: Some((10., 10., 20., 15.)), defs: r#"<clipPath id="dcp"><rect xy="10 10" wh="10 5"/></clipPath>"# },
+    Item { name: "reuse-with-clip-attr", src: r##"<reuse href="#sq" s="100" clip-path="url(#dc10)"/>"##, bbox: Some((0., 0., 100., 100.)), defs: r#"SPECS<rect id="sq" wh="$s"/>"# },
+    // never-rendered containers written outside <defs>
+    Item { name: "toplevel-clippath", src: r#"<clipPath id="tcp"><rect xy="900 900" wh="100"/></clipPath>"#, bbox: None, defs: "" },
+    Item { name: "toplevel-mask-marker-pattern", src: r#"<marker id="tmk"><path d="M600 600 L700 700"/></marker><mask id="tms"><rect xy="-900 -900" wh="400"/></mask><pattern id="tpt" width="4" height="4"><rect xy="650 650" wh="9"/></pattern>"#, bbox: None, defs: "" },
+    Item { name: "toplevel-gradient-filter", src: r#"<linearGradient id="tlg"><stop offset="0"/></linearGradient><filter id="tfl" x="-500" y="-500" width="1000" height="1000"><feOffset dx="300" dy="300"/></filter>"#, bbox: None, defs: "" },
+    // variables / expressions in a group's transform
+    Item { name: "g-translate-var", src: r#"<var gt="30"/><g transform="translate($gt 4)"><rect wh="10"/></g>"#, bbox: Some((30., 4., 40., 14.)), defs: "" },
+    Item { name: "g-translate-expr-loop", src: r#"<loop count="2" loop-var="gi"><g transform="translate({{$gi * 20}})"><rect wh="10"/></g></loop>"#, bbox: Some((0., 0., 30., 10.)), defs: "" },
+    // standalone text: its anchor AS FOUND IN THE OUTPUT is part of the extent (marker SA:)
+    Item { name: "text-relative", src: r#"<rect xy="200 200" wh="10"/><text xy="^|h 5">SA:rel</text>"#, bbox: Some((200., 200., 210., 210.)), defs: "" },
+    Item { name: "text-loc", src: r#"<text xy="-200 10" text="SA:loc" text-loc="tl"/>"#, bbox: None, defs: "" },
+    Item { name: "text-at-corner", src: r##"<rect id="tca" xy="300 -300" wh="10"/><text xy="#tca@br">SA:corner</text>"##, bbox: Some((300., -300., 310., -290.)), defs: "" },
+    Item { name: "text-with-tspan", src: r#"<text x="150" y="-150">SA:a<tspan>b</tspan></text>"#, bbox: None, defs: "" },
+    Item { name: "text-transform", src: r#"<text xy="10" transform="translate(400)">SA:moved</text>"#, bbox: None, defs: "" },
+    // path with several sub-paths: closepath returns to the start of the CURRENT sub-path
+    Item { name: "path-subpaths", src: r#"<path d="M0 0 h10 M50 50 h10 v10 z l20 20"/>"#, bbox: Some((0., 0., 70., 70.)), defs: "" },
+    Item { name: "path-subpaths-rel", src: r#"<path d="m0 0 h10 m40 50 h10 v10 z m-30 -30 l-40 0"/>"#, bbox: Some((-20., 0., 60., 60.)), defs: "" },
 ];
 
 /// (name, attributes source, supplied width, height, viewBox)
@@ -66,6 +92,9 @@ const ROOTS: &[(&str, &str, Option<&str>, Option<&str>, Option<&str>)] = &[
     ("viewBox+height", r#" viewBox="1 2 3 4" height="6.5mm""#, None, Some("6.5mm"), Some("1 2 3 4")),
     ("all", r#" width="1" height="2" viewBox="3 4 5 6""#, Some("1"), Some("2"), Some("3 4 5 6")),
     ("version+xmlns", r#" version="1.0" xmlns:xlink="http://www.w3.org/1999/xlink""#, None, None, None),
+    ("width+height-plain", r#" width="100" height="50""#, Some("100"), Some("50"), None),
+    ("width-plain", r#" width="120""#, Some("120"), None, None),
+    ("height-plain", r#" height="40" class="mine""#, None, Some("40"), None),
 ];
 
 fn split_unit(s: &str) -> Option<(f64, String)> {
@@ -144,6 +173,25 @@ fn check(c: &Case) -> CaseResult {
                 Some(r) => {
                     ok = true;
                     let head = clip(&text, 260);
+                    // standalone text (marker "SA:"): the anchor as found in the output belongs to the extent; a
+                    // transform on the text element itself moves it
+                    for t in r.descendants().into_iter().filter(|t| t.name == "text" && t.text().starts_with("SA:")) {
+                        match (t.attr("x").and_then(|v| v.parse::<f64>().ok()), t.attr("y").and_then(|v| v.parse::<f64>().ok())) {
+                            (Some(mut x), Some(y)) => {
+                                if let Some(tr) = t.attr("transform") {
+                                    if let Some(dx) = tr.strip_prefix("translate(").and_then(|v| v.strip_suffix(')')).and_then(|v| v.parse::<f64>().ok()) {
+                                        x += dx;
+                                    }
+                                }
+                                let b = BBox::new(x, y, x, y);
+                                e = Some(match e {
+                                    None => b,
+                                    Some(q) => q.union(&b),
+                                });
+                            }
+                            _ => mk("standalone-text-unobservable", format!("{doc}\n{head}")),
+                        }
+                    }
                     // version / namespace
                     let want_version = if ROOTS[c.root].0 == "version+xmlns" { "1.0" } else { "1.1" };
                     if r.attr("version") != Some(want_version) {
@@ -201,8 +249,15 @@ fn check(c: &Case) -> CaseResult {
                                             mk("supplied-dimension-changed", format!("{k}: expected {s:?}, observed {:?}", r.attr(k)));
                                         }
                                     }
-                                    // a zero-width or zero-height extent has no aspect ratio: nothing is asserted
-                                    (None, Some((v, _))) if !v.is_finite() => {}
+                                    // a zero-width or zero-height extent has no aspect ratio: no value is asserted, but
+                                    // whatever is written must be a number
+                                    (None, Some((v, _))) if !v.is_finite() => {
+                                        if let Some(a) = r.attr(k) {
+                                            if a.contains("inf") || a.contains("NaN") {
+                                                mk("non-finite-dimension", format!("{doc}\n{k}=\"{a}\" in the output"));
+                                            }
+                                        }
+                                    }
                                     (None, Some((v, u))) => match r.attr(k).and_then(split_unit) {
                                         Some((g, gu)) if gu == u && (g - v).abs() <= 0.0011 + 1e-6 * v.abs() => {}
                                         other => mk("derived-dimension", format!("{doc}\n{k}: expected {v}{u} (extent {w} x {h}, scale {sc}), observed {other:?} ({:?})", r.attr(k))),
